@@ -57,7 +57,8 @@ type Msg struct {
 	Salt     string `json:"salt,omitempty"`
 	Round    uint64 `json:"round,omitempty"`
 	AdminUpper  bool `json:"admin_upper,omitempty"`  // the admin to add / remove is spelled in upper-case bech32
-	SenderUpper bool `json:"sender_upper,omitempty"` // the sender is spelled in upper-case bech32 (same account, same signature)
+	SenderUpper bool `json:"sender_upper,omitempty"`
+	ValUpper    bool `json:"val_upper,omitempty"`    // the validator of an oracle message is spelled in upper-case bech32 // the sender is spelled in upper-case bech32 (same account, same signature)
 }
 
 type Env struct {
@@ -376,6 +377,12 @@ func (e *Exec) toSdkMsg(m Msg) sdk.Msg {
 		}
 		return acct(m.Admin).Bech()
 	}
+	val := func() string {
+		if m.ValUpper {
+			return strings.ToUpper(acct(m.Val).Val().String())
+		}
+		return acct(m.Val).Val().String()
+	}
 	switch m.Kind {
 	case "create_tenant":
 		return settlementtypes.NewMsgCreateTenant(snd(), m.Denom, m.Period)
@@ -399,15 +406,15 @@ func (e *Exec) toSdkMsg(m Msg) sdk.Msg {
 		sum := sha256.Sum256([]byte(m.Commit))
 		hash := fmt.Sprintf("%X", sum[:])
 		e.commits[hash] = m.Commit
-		return oracletypes.NewMsgPrevote(acct(m.Feeder).Bech(), acct(m.Val).Val().String(), hash, m.Round)
+		return oracletypes.NewMsgPrevote(acct(m.Feeder).Bech(), val(), hash, m.Round)
 	case "vote":
 		var vds []*oracletypes.VoteData
 		for _, v := range m.VD {
 			vds = append(vds, &oracletypes.VoteData{Topic: oracletypes.OracleTopic(v.Topic), Data: v.Entries})
 		}
-		return oracletypes.NewMsgVote(acct(m.Feeder).Bech(), acct(m.Val).Val().String(), vds, m.Salt, m.Round)
+		return oracletypes.NewMsgVote(acct(m.Feeder).Bech(), val(), vds, m.Salt, m.Round)
 	case "consent":
-		return oracletypes.NewMsgFeederDelegationConsent(acct(m.Val).Val().String(), acct(m.Feeder).Bech())
+		return oracletypes.NewMsgFeederDelegationConsent(val(), acct(m.Feeder).Bech())
 	}
 	panic("unknown msg kind " + m.Kind)
 }
